@@ -272,3 +272,47 @@ Definition prop_overlap (idem : bool) (spec : option nat) (frs : list frame) : b
   | None => overlap_ok 1 frs
   | Some max => overlap_ok (1 + max) frs
   end.
+
+(* "the call returns the first result that is a success or a definitive error", directly on the
+   frames.  An answer is REAL when it ends its fiber with a result `execute` returns at once: a
+   success, or an error that no built-in retry policy retries and that is not ignorable
+   (final_definitive, see Proofs/E2ESpec_proofs.v final_definitive_spec).  A frame WINS when its
+   answer is what the caller got (for a success: on the node the result names as coordinator).
+   The property fails when some real answer was logged more than [margin] before EVERY winning
+   answer: the call returned a later answer although an earlier real one was there.  (Nothing is
+   said when no frame wins: ignored write errors, pool errors.) *)
+Definition final_definitive (e : attempt_error) : bool :=
+  match e with
+  | EDbError (DbSyntaxError | DbInvalid | DbAlreadyExists | DbFunctionFailure | DbAuthenticationError
+              | DbUnauthorized | DbConfigError | DbProtocolError) => true
+  | _ => false
+  end.
+Definition real_ans (a : answer) : bool :=
+  match a with AnsOk => true | AnsErr e => final_definitive e | AnsNone => false end.
+Definition wins (o : ores) (co : option N) (f : frame) : bool :=
+  match o, f_ans f with
+  | OCompleted, AnsOk | OOk, AnsOk => match co with Some c => c =? f_node f | None => true end
+  | OFailed (LAttempt e), AnsErr e' => if attempt_error_eq_dec e e' then true else false
+  | _, _ => false
+  end.
+Definition prop_first_real (margin : N) (o : ores) (co : option N) (frs : list frame) : bool :=
+  let ws := filter (wins o co) frs in
+  is_nil ws
+  || forallb (fun g => negb (real_ans (f_ans g))
+                       || existsb (fun w => negb (f_done g + margin <? f_done w)) ws) frs.
+
+(* "... and otherwise the last error once every started execution has finished and none may still be
+   started", directly on the frames: when the caller got an IGNORABLE error, (a) no frame is still
+   unanswered when the call returns, and (b) unless connections were cut, either every node got a
+   frame (plan used up) or at least 1 + max frames were sent (an execution sends at least one frame
+   while the plan is not used up, so fewer frames = fewer executions). *)
+Definition ignorable_res (o : ores) : bool :=
+  match o with
+  | OFailed e => Spec.can_be_ignored (Err (conv_last e))
+  | _ => false
+  end.
+Definition distinct_nodes (frs : list frame) : nat := List.length (nodup N.eq_dec (map f_node frs)).
+Definition prop_last_error (max nnodes : nat) (down : list N) (tret : N) (o : ores) (frs : list frame) : bool :=
+  negb (ignorable_res o)
+  || (forallb (fun f => answered f && (f_done f <=? tret)) frs
+      && (negb (is_nil down) || (nnodes <=? distinct_nodes frs)%nat || (1 + max <=? List.length frs)%nat)).
